@@ -179,6 +179,17 @@ class DirectObjectAccess:
         return create_access_path(self._inference_state, obj)
 
     def py__bool__(self):
+        # Calling bool() would execute a user defined __bool__ or __len__, so
+        # look them up on the type without executing anything first.
+        for name in ('__bool__', '__len__'):
+            try:
+                attr, _ = getattr_static(type(self._obj), name)
+            except AttributeError:
+                continue
+            if isinstance(attr, types.FunctionType):
+                # Like for all the values where the truth is not known.
+                return True
+            break
         return bool(self._obj)
 
     def py__file__(self) -> Optional[Path]:
